@@ -4,8 +4,9 @@ import KrroodVerif.Drive.SG
 /-!
 C14 driver. Case: `(h <op> …)`. Observation: the relation triples among live instances and the contents of the
 managed fields of live instances, or `exc` when an assertion raised.
-`model=` the code as it is, `model_fixed=` with `fixes/C14_purge_relation_index.diff`, `spec=` the history read at the
-level of objects (`specRun`), which by `C14_fresh_equiv` is what the same assertions give on a fresh graph.
+`model=` the code as it is (`remove_node` repaired, F-C14-1 fixed by c18b52a; F-C14-2 open), `model_repaired=` every quirk
+off, `spec=` the history read at the level of objects (`specRun`), which by `C14_fresh_equiv` is what the same
+assertions give on a fresh graph.
 -/
 namespace KrroodVerif.Drive.C14
 open KrroodVerif KrroodVerif.SG KrroodVerif.Drive.SG
@@ -20,12 +21,12 @@ def run (s : Sexp) : String :=
   | .list (.atom "h" :: xs) =>
     match parseOps xs with
     | some ops =>
-      -- F-C14-1 is repaired in /repo (fix commit c18b52a): the model tied to the code is `Quirks.c14Fixed`
-      let st := runD Quirks.c14Fixed ops
+      let st := runD Quirks.asIs ops
       let m := showObs st.relObs
-      let sp := showObs (specRunD Quirks.c14Fixed ops).relObs
+      let mr := showObs (runD Quirks.none ops).relObs
+      let sp := showObs (specRunD Quirks.asIs ops).relObs
       let trig := joinTrig [(st.deadHit, "F-C14-2")]
-      s!"model={m}\tspec={sp}\ttrig={trig}\tmodel_repaired={showObs (runD Quirks.none ops).relObs}"
+      s!"model={m}\tspec={sp}\ttrig={trig}\tmodel_repaired={mr}"
     | none => "error=bad-case"
   | _ => "error=bad-case"
 end KrroodVerif.Drive.C14
